@@ -75,6 +75,7 @@ def run(ctx):
             continue
         res.count("exec_model_instances")
         res.count("exec_refinement_theorem_applies" if (o["exec_hyp"] and o["sized"]) else "exec_refinement_hypotheses_unmet")
+        res.count("exec_order_valid" if o.get("valid_in") else "exec_order_not_valid")
         names = r["probe"]["names"]
         crec = entry["episodes"][e]
         bad = None
